@@ -957,6 +957,19 @@ def chain_family():
        "class Box:\n  items = {**d1, 'z': h()}\n  def __init__(self):\n    self.ia0 = [g(), *l2]\n"
        "  def all(self):\n    return {**self.items, 'n': dep.D0()}\n")
   out.append((dep, a))
+  # (d) name resolution in the stub reader: a nested class that has the same simple name as a module-level class and
+  # mentions that namesake (and the other way round), nested classes referring to themselves, to their outer class and to
+  # siblings, a module-level constant named like a nested class
+  a = ("import dep\nclass Item:\n  def __init__(self):\n    self.ia0 = 1.5\n  def tag(self):\n    return 's'\n"
+       "class Basket:\n  class Item:\n    def __init__(self):\n      self.ia0 = Item()\n      self.ia1 = [Basket.Item]\n"
+       "    def up(self):\n      return Basket()\n    def me(self):\n      return self\n"
+       "  class Other:\n    def sib(self):\n      return Basket.Item()\n    def top(self):\n      return Item()\n"
+       "  def __init__(self):\n    self.ia0 = Basket.Item()\n    self.ia1 = Item()\n"
+       "  def both(self):\n    return (Item(), Basket.Item(), Basket.Other())\n"
+       "class Outer2:\n  class Basket:\n    def mk(self):\n      return (Basket(), Item())\n"
+       "b = Basket()\nholder = Basket.Item()\norigin = holder.ia0\nnested = b.ia0\ntop = b.ia1\n"
+       "def mk():\n  return Basket.Item().ia0\ndef mk2():\n  return Outer2.Basket().mk()\n")
+  out.append((dep, a))
   return out
 
 
